@@ -606,6 +606,24 @@ func (w *World) StateKey(symmetry bool) string {
 		}
 		sb.WriteString("|")
 	}
+	// the order of the runner's job list, where it is not the order of acceptance (removals by retention put the last
+	// entry in the place of the removed one): code that derives an order from that list has different futures
+	bp := make([]string, 0, len(d.ByPipeline))
+	for p := range d.ByPipeline {
+		bp = append(bp, p)
+	}
+	sort.Strings(bp)
+	for _, p := range bp {
+		var seq []int
+		for _, j := range d.ByPipeline[p] {
+			if r := ren[j]; r != 0 {
+				seq = append(seq, r)
+			}
+		}
+		if !sort.IntsAreSorted(seq) {
+			fmt.Fprintf(&sb, "ord %s:%v|", p, seq)
+		}
+	}
 	// mock state: parked runs and cancelled runners per (renamed) job
 	for _, m := range w.Mocks {
 		r := ren[m.job]
